@@ -10,10 +10,10 @@ git reset -q --hard; git clean -fdq -e target
 git apply --check $S/patch.diff && echo "patch applies on pristine HEAD" >> $OUT || { echo "PATCH DOES NOT APPLY" >> $OUT; exit 1; }
 git apply $S/patch.diff && git apply $S/demo.diff && echo "demo applies on top" >> $OUT || { echo "DEMO DOES NOT APPLY ON PATCH" >> $OUT; exit 1; }
 echo "== suite WITH change (+demo): cargo test -p $CRATE --lib --offline" >> $OUT
-cargo test -p $CRATE --lib --offline -j 8 2>&1 | grep -E "^test .*(FAILED|failed)|^test result" >> $OUT
+cargo test -p $CRATE --lib --offline -j 8 2>&1 | grep -E "^test .* (FAILED|failed)$|^test result" >> $OUT
 git reset -q --hard; git clean -fdq -e target
 git apply $S/demo.diff || { echo "DEMO DOES NOT APPLY ON PRISTINE" >> $OUT; exit 1; }
 echo "== suite WITHOUT change (+demo)" >> $OUT
-cargo test -p $CRATE --lib --offline -j 8 2>&1 | grep -E "^test .*(FAILED|failed)|^test result" >> $OUT
+cargo test -p $CRATE --lib --offline -j 8 2>&1 | grep -E "^test .* (FAILED|failed)$|^test result" >> $OUT
 git reset -q --hard; git clean -fdq -e target
 cat $OUT
